@@ -39,4 +39,38 @@ theorem matchAll_tie (domains sans : List C17.Name) :
 example : CodeC17.matchDomains (C17.covered [["*", "dev", "local"]]) [["s1", "dev", "local"], ["s2", "dev", "local"]] = true := by
   decide
 
+/-! ## `instance.AcmeUpdate` -/
+
+theorem forRange_eff (name : String) (xs : List String) (fx : Fx) :
+    GoLib.forRange (ρ := Fx) xs fx (fun x fx =>
+        let fx := (GoLib.effS name fx x)
+        GoLib.Step.next fx) = .done (fx ++ xs.map (fun x => name ++ ":" ++ x)) := by
+  induction xs generalizing fx with
+  | nil => simp [GoLib.forRange]
+  | cons x xs ih => simp only [GoLib.forRange]; rw [ih]; simp [GoLib.effS]
+
+/-- **on the leader with an account every added / changed storage is enqueued and every removed one is
+removed — whatever else the instance went through** (the translated function reads nothing else: no `failedSince`,
+no `reloadOwed`; seed C17e made it depend on the last reload) -/
+theorem acmeUpdate_leader (env : Env) (i : AcmeInstView) (adds dels : List String) (fx : Fx)
+    (h1 : i.configNil = false) (h2 : i.queueNil = false) (hl : i.isLeader = true)
+    (ha : env.val "acmeEnsureConfig" = true) :
+    CodeC17.acmeUpdate env i adds dels fx =
+      fx ++ ["acmeEnsureConfig"] ++ adds.map (fun x => "add" ++ ":" ++ x) ++ dels.map (fun x => "del" ++ ":" ++ x) := by
+  unfold CodeC17.acmeUpdate
+  simp only [h1, h2, hl, ha, GoLib.callB, Bool.or_self, Bool.false_eq_true, ↓reduceIte, Bool.not_true,
+    forRange_eff]
+
+/-- not the leader, no account, no queue, no configuration: nothing is enqueued or removed -/
+theorem acmeUpdate_silent (env : Env) (i : AcmeInstView) (adds dels : List String) (fx : Fx)
+    (h : i.configNil = true ∨ i.queueNil = true ∨ i.isLeader = false ∨ env.val "acmeEnsureConfig" = false) :
+    ∀ s ∈ CodeC17.acmeUpdate env i adds dels fx, s ∈ fx ∨ s = "acmeEnsureConfig" := by
+  unfold CodeC17.acmeUpdate
+  cases hc : i.configNil <;> cases hq : i.queueNil <;> cases hl : i.isLeader <;>
+    cases ha : env.val "acmeEnsureConfig" <;> simp_all [GoLib.callB] <;>
+    (first | done | (intro s hs; left; cases hu : GoLib.readB env "storages.Updated" <;> simp [hu] at hs <;> exact hs))
+
+example : CodeC17.acmeUpdate ⟨fun _ => false, fun _ => true, fun _ => 0⟩ ⟨false, false, true⟩ ["s1,,h1.x"] ["s0"] []
+    = ["acmeEnsureConfig", "add:s1,,h1.x", "del:s0"] := by decide
+
 end HapVerif.C17Tie
